@@ -102,13 +102,20 @@ def space(tier):
                             continue
                         if not T and ploidy == 3 and (fmt != "bam" or len(names) == 3):
                             continue
-                        for lp in (0, 1):
+                        for lp in (0, 1, 2):
                             if lp == 1 and fmt != "bam":
                                 continue
+                            if lp == 2 and not (len(names) >= 2 and fmt in ("bam", "fastq") and (T or ploidy == 2)):
+                                continue  # all reads of one length: histogram rows shared between outputs
                             for cols, header in ((2, False), (2, True), (4, True), (4, False)):
                                 if not T and (cols, header) in ((2, True), (4, False)) and len(names) == 3:
                                     continue
-                                yield from option_vectors(ploidy, names, assign, zextra, fmt, lp, cols, header, T)
+                                if lp == 2 and not T and (cols, header) != (2, False):
+                                    continue
+                                for ov_ in option_vectors(ploidy, names, assign, zextra, fmt, lp, cols, header, T):
+                                    if lp == 2 and not ov_["add_untagged"] and not T:
+                                        continue
+                                    yield ov_
 
 
 def option_vectors(ploidy, names, assign, zextra, fmt, lp, cols, header, T):
@@ -165,7 +172,7 @@ def judge(inst):
     os.makedirs(d, exist_ok=True)
     ploidy, names, assign, fmt = inst["ploidy"], inst["names"], inst["assign"], inst["fmt"]
     BLOCK = BLOCKS[inst.get("layout", 0)]
-    lens = [(i % 3 + 1) if inst["lp"] == 0 else (i + 1) % 3 for i in range(len(names))]
+    lens = [(i % 3 + 1) if inst["lp"] == 0 else ((i + 1) % 3 if inst["lp"] == 1 else 2) for i in range(len(names))]
     reads_path = os.path.join(d, "reads." + fmt)
     recs = write_reads(reads_path, fmt, list(zip(names, lens)))
     list_path = os.path.join(d, "list.tsv")
